@@ -1,11 +1,12 @@
 #!/bin/sh
-# tools/mutate.sh <file-in-repo> <sed-expr> <check-id> [check args...]   (applies, runs, reverts)
+# tools/mutate.sh <file-in-repo> <sed-expr> <check-id> [check args...]   (applies, runs, reverts; evidence file preserved)
 f="$1"; e="$2"; id="$3"; shift 3
 cd /repo && git diff --quiet || { echo "repo dirty"; exit 9; }
 sed -i "$e" "$f"
 if git diff --quiet; then echo "MUTATION DID NOT APPLY"; exit 8; fi
 git diff --stat | tail -1
+cp /verif/evidence/$id.json /tmp/_ev_$id.json 2>/dev/null
 cd /verif && ./check "$id" "$@" 2>&1 | tail -${TAILN:-6}
-rc=$?
+cp /tmp/_ev_$id.json /verif/evidence/$id.json 2>/dev/null
 cd /repo && git checkout -- . 
 echo "reverted"
